@@ -61,8 +61,13 @@ def cmd_init(args):
             print(f"{C.CYAN}Upgrading merchant rules to new format...{C.RESET}")
             print(f"  Found: config/merchant_categories.csv (legacy CSV format)")
             print()
-            _migrate_csv_to_rules(old_csv, config_dir, backup=True)
+            migrated = _migrate_csv_to_rules(old_csv, config_dir, backup=True)
             print()
+            if not migrated and not os.path.exists(new_rules):
+                # Creating the starter merchants.rules now would put an empty rules file
+                # in front of the rules that are still in the CSV
+                print(f"Fix the problem above and run {C.GREEN}tally init{C.RESET} again.", file=sys.stderr)
+                sys.exit(1)
 
     created, skipped = init_config(target_dir)
 
